@@ -377,7 +377,7 @@ def check_seq(case, stats):
 
 
 CHECKS = {'check_cell': check_cell, 'check_seq': check_seq}
-_B = {'quick': 80, 'thorough': 400}
+_B = {'quick': 80, 'thorough': 2000}
 
 
 def shards(tier):
